@@ -150,6 +150,17 @@ func (l *plink) listeners() peer.MessageListeners {
 		OnNotFound: func(p *peer.Peer, m *wire.MsgNotFound) { l.cb("notfound", invTok(m.InvList)) },
 		OnHeaders:  func(p *peer.Peer, m *wire.MsgHeaders) { l.cb("headers", fmt.Sprint(len(m.Headers))) },
 		OnGetAddr:  func(p *peer.Peer, m *wire.MsgGetAddr) { l.cb("getaddr", "") },
+		OnAddr:     func(p *peer.Peer, m *wire.MsgAddr) { l.cb("addr", fmt.Sprint(len(m.AddrList))) },
+		OnAddrV2: func(p *peer.Peer, m *wire.MsgAddrV2) {
+			tok := ""
+			if len(m.AddrList) > 0 {
+				tok = fmt.Sprintf("%s:%d", m.AddrList[0].Addr.String(), m.AddrList[0].Port)
+			}
+			l.cb("addrv2", tok)
+		},
+		OnGetHeaders: func(p *peer.Peer, m *wire.MsgGetHeaders) {
+			l.cb("getheaders", fmt.Sprintf("%d:%x", len(m.BlockLocatorHashes), m.HashStop[:8]))
+		},
 		OnMemPool:  func(p *peer.Peer, m *wire.MsgMemPool) { l.cb("mempool", "") },
 		OnFeeFilter: func(p *peer.Peer, m *wire.MsgFeeFilter) {
 			l.cb("feefilter", fmt.Sprint(m.MinFee))
@@ -173,7 +184,7 @@ func (l *plink) listeners() peer.MessageListeners {
 
 // remoteMain is the reference node's goroutine: the transport handshake, then
 // the receive loop.  Sending after the handshake is done by the driver.
-func (l *plink) remoteMain(garbage []byte, decoys []int, wrongTerm bool) {
+func (l *plink) remoteMain(garbage []byte, decoys []int, verLen int, wrongTerm bool) {
 	ep := l.ep
 	rw := plRW{plReader{l.conn}, l.conn}
 	fail := func(phase string, err error) {
@@ -206,7 +217,7 @@ func (l *plink) remoteMain(garbage []byte, decoys []int, wrongTerm bool) {
 		rw.Write(ep.S.Send.EncPacket(make([]byte, n), aad, true))
 		aad = nil
 	}
-	rw.Write(ep.S.Send.EncPacket(nil, aad, false))
+	rw.Write(ep.S.Send.EncPacket(make([]byte, verLen), aad, false))
 	if err := ep.ReceiveGarbageAndVersion(rw); err != nil {
 		fail("complete", err)
 		return
@@ -348,7 +359,11 @@ func runPeerLink(r *simkit.Run) {
 	}
 	r.Event("peerlink", "outbound=%v net=%s rpv=%d garbage=%d decoys=%d fault=%s", l.outbound, params.Name, l.remotePV, glen, len(decoys), faultNames[fault])
 
-	go l.remoteMain(garbage, decoys, fault == fWrongTerm)
+	verLen := 0
+	if c.Bool(300, "pl.version-contents") {
+		verLen = simkit.Range(c, 1, 40, "pl.version-len")
+	}
+	go l.remoteMain(garbage, decoys, verLen, fault == fWrongTerm)
 	l.p.AssociateConnection(l.conn)
 	synctest.Wait()
 
@@ -822,7 +837,24 @@ func plDrawQueued(c simkit.Chooser) (plMsg, wire.Message) {
 	var h [32]byte
 	copy(h[:], c.Bytes(32, "pl.tok"))
 	ch := chainhash.Hash(h)
-	switch simkit.Pick(c, "pl.qkind", 4, 4, 3, 2, 2, 1) {
+	switch simkit.Pick(c, "pl.qkind", 4, 4, 3, 2, 2, 1, 2, 2) {
+	case 6:
+		m := wire.NewMsgAddrV2()
+		ts := time.Unix(time.Now().Unix(), 0)
+		m.AddrList = append(m.AddrList, wire.NetAddressV2FromBytes(ts, wire.SFNodeNetwork, []byte{10, h[0], h[1], h[2]}, 8333))
+		b := []byte{1}
+		b = binary.LittleEndian.AppendUint32(b, uint32(ts.Unix()))
+		b = append(b, 1, 1, 4, 10, h[0], h[1], h[2], 0x20, 0x8d)
+		return plMsg{cmd: "addrv2", payload: b}, m
+	case 7:
+		m := wire.NewMsgGetHeaders()
+		m.AddBlockLocatorHash(&ch)
+		m.HashStop = ch
+		b := binary.LittleEndian.AppendUint32(nil, 0) // the queued message carries ProtocolVersion 0
+		b = append(b, 1)
+		b = append(b, h[:]...)
+		b = append(b, h[:]...)
+		return plMsg{cmd: "getheaders", payload: b}, m
 	case 0:
 		n := binary.LittleEndian.Uint64(h[:8])
 		return plMsg{cmd: "ping", payload: le64b(n)}, wire.NewMsgPing(n)
@@ -864,11 +896,32 @@ func plDrawRemote(c simkit.Chooser, pv uint32, pongsDue *[]uint64) plMsg {
 	var h [32]byte
 	copy(h[:], c.Bytes(32, "pl.rtok"))
 	tok := func(t uint32) string { return fmt.Sprintf("%d:%x", t, h[:8]) }
-	k := simkit.Pick(c, "pl.rkind", 4, 3, 3, 2, 2, 1)
+	k := simkit.Pick(c, "pl.rkind", 4, 3, 3, 2, 2, 1, 2, 2, 2, 1, 1)
 	if k == 5 && pv < 70013 {
 		k = 1 // (feefilter exists from protocol version 70013 on)
 	}
 	switch k {
+	case 6: // addrv2, the last short id of the table: one IPv4 address
+		b := []byte{1}
+		b = binary.LittleEndian.AppendUint32(b, uint32(time.Now().Unix()))
+		b = append(b, 1, 1, 4, 10, h[0], h[1], h[2], 0x20, 0x8d)
+		return plMsg{cmd: "addrv2", payload: b, cbName: "addrv2", cbTok: fmt.Sprintf("10.%d.%d.%d:%d", h[0], h[1], h[2], 0x208d)}
+	case 7: // addr, the first short id
+		b := []byte{1}
+		b = binary.LittleEndian.AppendUint32(b, uint32(time.Now().Unix()))
+		b = append(b, le64b(1)...)
+		b = append(b, 0, 0, 0, 0, 0, 0, 0, 0, 0, 0, 0xff, 0xff, 10, h[0], h[1], h[2], 0x20, 0x8d)
+		return plMsg{cmd: "addr", payload: b, cbName: "addr", cbTok: "1"}
+	case 8:
+		b := binary.LittleEndian.AppendUint32(nil, 70016)
+		b = append(b, 1)
+		b = append(b, h[:]...)
+		b = append(b, h[:]...)
+		return plMsg{cmd: "getheaders", payload: b, cbName: "getheaders", cbTok: fmt.Sprintf("1:%x", h[:8])}
+	case 9:
+		return plMsg{cmd: "mempool", cbName: "mempool"}
+	case 10:
+		return plMsg{cmd: "getaddr", cbName: "getaddr"}
 	case 0:
 		n := binary.LittleEndian.Uint64(h[:8])
 		*pongsDue = append(*pongsDue, n)
